@@ -39,6 +39,7 @@ def warm():
     from vsim import child
 
     child.install_task_wrapper()
+    child.install_lossless_monitor()
     import vsg.__main__  # noqa
     import vsg.rule_list
 
